@@ -1253,6 +1253,16 @@ func (c *Cluster) loadPartitionFromSnapshot(pd *partData, snap persistPartSnapsh
 			lastOffset:  a.LastOffset,
 		})
 	}
+	// A segment file without a single valid batch (a crash between creating
+	// the file and its first write) is dropped from memory below; remove it
+	// from disk too, or the snapshot written at Close never matches the
+	// directory and every later start falls back to a full replay.
+	for i := range pd.segments {
+		if len(pd.segments[i].index) == 0 {
+			fsys.Remove(filepath.Join(pdir, segmentFileName(pd.segments[i].base)))
+			fsys.Remove(filepath.Join(pdir, indexFileName(pd.segments[i].base)))
+		}
+	}
 	pd.pruneEmptySegments()
 
 	// Accumulate nbytes from batchMeta, skipping entries before
@@ -1305,6 +1315,16 @@ func (c *Cluster) loadPartitionFullReplay(pd *partData, segFiles []int64, fsys f
 			return err
 		}
 		batches = append(batches, loaded...)
+	}
+	// A segment file without a single valid batch (a crash between creating
+	// the file and its first write) is dropped from memory below; remove it
+	// from disk too, or the snapshot written at Close never matches the
+	// directory and every later start falls back to a full replay.
+	for i := range pd.segments {
+		if len(pd.segments[i].index) == 0 {
+			fsys.Remove(filepath.Join(pdir, segmentFileName(pd.segments[i].base)))
+			fsys.Remove(filepath.Join(pdir, indexFileName(pd.segments[i].base)))
+		}
 	}
 	pd.pruneEmptySegments()
 
